@@ -329,6 +329,7 @@ func TestVerif_C06(t *testing.T) {
 	for ep := 0; ep < evid.Pick(40, 1500) && rec.Violations() < 30; ep++ {
 		vfC06NoEviction(rec, ep)
 	}
+	vfC06ListingPages(rec)
 	rec.Sample(map[string]any{"direct": "Allocate/Get/Release/ReleaseAll histories; every value ever returned is kept and replayed", "handlers": "LOOKUP of 2*max files, READ through every old value, Unexport/Export, Release", "max_values": []int{1, 2, 3, 5, 10, 64}})
 }
 
@@ -814,4 +815,87 @@ func vfC06NoEviction(rec *evid.Rec, ep int) {
 		}
 	}
 	rec.Distinct(fmt.Sprintf("no-eviction|values=%d", min64i(len(first)/5*5, 40)))
+}
+
+// vfC06ListingPages: a directory listed with READDIRPLUS over several pages; afterwards every
+// (name, handle) pair the listing gave out is used. Nothing was released and the table holds a few
+// dozen entries of its 100000, so each handle must still serve exactly the file it was given out for:
+// READ through it returns that file's bytes. Also with a small attribute cache (the handle table is
+// not bounded by it) and with the directory cache on.
+func vfC06ListingPages(rec *evid.Rec) {
+	for vi, o := range []ExportOptions{
+		{AttrCacheTimeout: 1},
+		{AttrCacheTimeout: 5 * time.Second, AttrCacheSize: 16},
+		{AttrCacheTimeout: 5 * time.Second, AttrCacheSize: 16, EnableDirCache: true},
+	} {
+		for _, maxcount := range []uint32{1200, 2048, 65536} {
+			fs := refs.New()
+			fs.PlantDir("/big", 0777, 0, 0)
+			const n = 40
+			for i := 0; i < n; i++ {
+				fs.PlantFile(fmt.Sprintf("/big/f%02d", i), []byte(fmt.Sprintf("content of f%02d", i)), 0666, 0, 0)
+			}
+			srv, err := vfNewSrv(fs, o)
+			if err != nil {
+				rec.Infra(err.Error())
+				return
+			}
+			c := srv.client()
+			root, _ := c.mnt("/")
+			dl, _ := c.lookup(root, "big")
+			if dl == nil || dl.Status != 0 {
+				rec.Infra("lookup big")
+				srv.Close()
+				return
+			}
+			dh := vfFH(dl.FH)
+			desc := map[string]any{"variant": vi, "maxcount": maxcount}
+			pairs := map[string]uint64{}
+			byHandle := map[uint64]string{root: "/", dh: "/big"}
+			cookie, pages := uint64(0), 0
+			for pages < 200 {
+				r, _ := c.readdirplus(dh, cookie, maxcount, maxcount)
+				if r == nil || r.Status != 0 || len(r.Entries) == 0 && !r.EOF {
+					break
+				}
+				pages++
+				for _, e := range r.Entries {
+					cookie = e.Cookie
+					if !e.FHPresent || e.Name == "." || e.Name == ".." {
+						continue
+					}
+					h := vfFH(e.FH)
+					if prev, dup := byHandle[h]; dup && prev != "/big/"+e.Name {
+						rec.Violate("C06/handler/value-issued-for-a-second-path/no-eviction-no-release/by=READDIRPLUS-page", fmt.Sprintf("page %d of the listing gives handle %d for %s; the same value was given out for %s (table: %d entries)", pages, h, e.Name, prev, srv.nfs.fileMap.Count()), desc)
+					}
+					byHandle[h] = "/big/" + e.Name
+					pairs[e.Name] = h
+				}
+				if r.EOF {
+					break
+				}
+			}
+			rec.Eval(len(pairs))
+			wrong := 0
+			for name, h := range pairs {
+				rr, _ := c.read(h, 0, 64)
+				want := "content of " + name
+				if rr == nil || rr.Status != 0 || string(rr.Data) != want {
+					wrong++
+					if wrong == 1 {
+						got := "no reply"
+						if rr != nil {
+							got = fmt.Sprintf("status %d %q", rr.Status, rr.Data)
+						}
+						rec.Violate("C06/handler/listing-handle-serves-another-object", fmt.Sprintf("READDIRPLUS (%d pages, maxcount %d) gave handle %d for %s; READ through it: %s, the file holds %q; nothing was released and the table holds %d entries", pages, maxcount, h, name, got, want, srv.nfs.fileMap.Count()), desc)
+					}
+				}
+			}
+			if g, _ := c.getattr(root); g == nil || g.Status != 0 || g.Attr.Type != 2 {
+				rec.Violate("C06/handler/mount-handle-serves-another-object/after-a-listing", fmt.Sprintf("GETATTR through the mount handle after listing %d entries: %+v", len(pairs), g), desc)
+			}
+			rec.Distinct(fmt.Sprintf("listing-pages|variant=%d|maxcount=%d|pages=%d|pairs=%d|wrong=%d", vi, maxcount, pages, len(pairs), wrong))
+			srv.Close()
+		}
+	}
 }
